@@ -395,18 +395,23 @@ static void run_case(vh_ctx *c)
     if (!B) vh_obs("ols_reference_unavailable", 1);
     else {
       for (j = 0; j < ny; j++) {
-        ld sc = g.nysc ? g.ysc[j] : 1, mu = g.nym ? g.ym[j] : 0, worst = 0, unit = EPS * SY[j] * g.kappa;
+        ld sc = g.nysc ? g.ysc[j] : 1, mu = g.nym ? g.ym[j] : 0, worst = 0;
         for (i = 0; i < n; i++) {
           ld f = 0, d;
           for (k = 0; k < p; k++) f += LM(g.Xp, i, k) * LM(B, k, j);
           d = fabsl(f * sc + mu - m->recalculated_y->data[i][ny * (p - 1) + j]);
           if (!(d <= worst)) worst = d;
         }
-        vh_max("max_ols_limit_over_eps_scale_kappa", (double)(worst / unit));
-        vh_max("max_ols_limit_rel", (double)(worst / SY[j]));
-        vh_max("max_ols_limit_over_eps_scale_ampT", (double)(worst / (EPS * SY[j] * (1 + ampT[p - 1]))));
-        /* fit = sum_k t_k t_k'Y/t_k't_k is the projector on span(X_pre) up to the loss of orthogonality of T (cosines ~ eps * ampT) */
-        if (!(worst <= 1e4 * EPS * SY[j] * (1 + ampT[p - 1]))) vh_fail(c, "PLS|ols-limit", "response %zu: max |PLS fit with nlv=rank=%zu - OLS fit| = %.3Lg (scale %.3Lg, kappa %.3Lg, amplification %.3Lg)", j, p, worst, SY[j], g.kappa, ampT[p - 1]);
+        {
+          /* fit = sum_k t_k t_k'Y/t_k't_k is the projector on span(X_pre) up to the loss of orthogonality of T (cosines ~ eps * ampT).
+             When the library stopped early (null latent variables) its documented rule is |X_k'Y_k| <= 1e-12 |X_k| |Y_k|: the part of Y_k
+             still inside span(X_k) is then at most 1e-12 |X_k| |Y_k| / sigma_min(X_pre), in response units times |scale_j| */
+          ld tol = 1e4 * EPS * SY[j] * (1 + ampT[p - 1]), stop = 1e-12L * (ldm_frob(g.Xp) / g.smin) * ldm_frob(g.Yp) * fabsl(sc);
+          if (nreal < nlv) { tol += 100 * stop; vh_max("max_ols_limit_after_early_stop_over_stopping_rule", (double)(worst / stop)); vh_obs("ols_limit_columns_after_early_stop", 1); }
+          else vh_max("max_ols_limit_over_eps_scale_ampT", (double)(worst / (EPS * SY[j] * (1 + ampT[p - 1]))));
+          vh_max("max_ols_limit_rel", (double)(worst / SY[j]));
+          if (!(worst <= tol)) vh_fail(c, "PLS|ols-limit", "response %zu: max |PLS fit with nlv=rank=%zu - OLS fit| = %.3Lg (scale %.3Lg, kappa %.3Lg, amplification %.3Lg, real LVs %zu, tolerance %.3Lg)", j, p, worst, SY[j], g.kappa, ampT[p - 1], nreal, tol);
+        }
         vh_obs("ols_limit_columns_checked", 1);
       }
       ldm_free(B);
@@ -461,7 +466,7 @@ static void run_case(vh_ctx *c)
             s += xp * bet->data[k]; xn += xa * xa;
           }
           d = fabsl(s * sc + mu - yp->data[i][0]);
-          unit = EPS * (fabsl(sc) * sqrtl(xn) * amp + fabsl(mu) + fabsl(s * sc));
+          unit = EPS * (fabsl(sc) * sqrtl(xn) * amp + SY[0] + fabsl(s * sc));     /* SY: the response data carry eps * (max|y| + |mean|) themselves */
           if (!(d / unit <= worst)) { worst = d / unit; wunit = unit; }
         }
         vh_max(set ? "max_beta_vs_score_prediction_unseen_over_eps_amp" : "max_beta_vs_score_prediction_training_over_eps_amp", (double)worst);
